@@ -558,6 +558,50 @@ func c11Server(run *evid.Run) {
 			cl.Close()
 		}
 	}
+	// several connections sending different unknown text commands at the same time: whatever the
+	// error path remembers about rejected commands is shared by all connections and must be safe to
+	// share (the race detector and the crash monitor below are the oracle)
+	{
+		var gw sync.WaitGroup
+		sent := make([]int64, 8)
+		for c := 0; c < 8; c++ {
+			gw.Add(1)
+			go func(c int) {
+				defer gw.Done()
+				var cl *wire.Client
+				buf := make([]byte, 4096)
+				for i := 0; i < 400; i++ {
+					if cl == nil {
+						var err error
+						if cl, err = p.Dial(0, false); err != nil {
+							return
+						}
+					}
+					line := fmt.Sprintf("zz%dx%d unknown %d\r\n", c, i, i)
+					if cl.Send([]byte(line)) != nil {
+						cl.Close()
+						cl = nil
+						continue
+					}
+					sent[c]++
+					cl.Conn.SetReadDeadline(time.Now().Add(2 * time.Second))
+					if _, err := cl.Conn.Read(buf); err != nil {
+						cl.Close()
+						cl = nil
+					}
+				}
+				if cl != nil {
+					cl.Close()
+				}
+			}(c)
+		}
+		gw.Wait()
+		var total int64
+		for _, n := range sent {
+			total += n
+		}
+		run.Count("concurrent_unknown_text_commands", total)
+	}
 	var ops int64
 	var wg sync.WaitGroup
 	fails := make(chan string, 16)
